@@ -297,20 +297,107 @@ fn lone_search(seed: u64) -> c13::Made {
     c13::Made { world: w, horizon, desc }
 }
 
+/// B4: the follow-up exemption is "at most three, half a second apart, for a newly found
+/// instance". An instance is delivered in stages (PTR first; SRV/TXT later or never; no
+/// address ever), nobody answers the daemon's follow-up questions, the type is sometimes
+/// browsed again: every query instant that asks about the instance or its host is a
+/// follow-up round; more than three rounds, or two rounds closer than half a second, is
+/// asking more often than the statement allows.
+pub fn followup_case(seed: u64, l: &mut Local) {
+    let mut rng = Rng::new(seed);
+    let mut w = World::new(seed);
+    let stepping = if rng.chance(1, 3) { Stepping::Eager(10) } else { Stepping::Lazy };
+    w.set_stepping(stepping);
+    let sl = slack(stepping);
+    let h = w.add_host(if rng.chance(1, 3) { scen::single_dual() } else { scen::single_v4() });
+    w.set_ip_check_interval(h, 3600);
+    let t0 = w.now();
+    w.browse(h, "_t._udp.local.");
+    let mut s = scen::Svc::new("_t._udp.local.", "staged", "printer.local", [10, 0, 0, 30]);
+    s.ttl_ptr = 4500;
+    s.ttl_srv = 4500;
+    s.ttl_txt = 4500;
+    let t_ptr = 50 + rng.below(900);
+    let mut events: Vec<(u64, u8)> = vec![(t_ptr, 0)];
+    let srv_later = rng.chance(2, 3);
+    if srv_later {
+        events.push((t_ptr + 20 + rng.below(2500), 1));
+    }
+    if rng.chance(1, 3) {
+        events.push((t_ptr + 300 + rng.below(4000), 2)); // the PTR once more
+    }
+    if rng.chance(1, 2) {
+        events.push((8000 + rng.below(4000), 3)); // the type browsed again
+    }
+    events.sort();
+    let mut desc = String::from("staged delivery:");
+    for (t, k) in events {
+        w.run_until(t0 + t);
+        let mut m = wire::Message::response();
+        match k {
+            0 | 2 => {
+                m.answers.push(s.ptr());
+                desc.push_str(&format!(" @{t}:ptr"));
+            }
+            1 => {
+                m.answers.push(s.srv());
+                if rng.chance(2, 3) {
+                    m.answers.push(s.txt());
+                }
+                desc.push_str(&format!(" @{t}:srv"));
+            }
+            _ => {
+                w.browse(h, "_t._udp.local.");
+                desc.push_str(&format!(" @{t}:browse-again"));
+                continue;
+            }
+        }
+        w.inject_msg(h, 2, scen::peer4(30), &m);
+    }
+    let horizon = t0 + 16_000;
+    w.run_until(horizon);
+    l.evaluations += 1;
+    l.distinct.insert(util::fnv_str(&format!("followup|{}", desc.split('@').map(|x| x.split(':').nth(1).unwrap_or("")).collect::<Vec<_>>().join(","))));
+    if w.trace.deaths().any(|d| matches!(d.ev, Ev::Death { panicked: true, .. })) {
+        l.inconclusive.push(format!("daemon died in a C19 follow-up scenario (seed {seed})"));
+        return;
+    }
+    let txs = scen::tx_msgs(&w.trace, 0);
+    let about = |q: &wire::Question| wire::names_eq_nocase(&q.name, &s.inst) || wire::names_eq_nocase(&q.name, &s.host);
+    let mut rounds: Vec<u64> = txs.iter().filter(|tx| tx.msg.is_query() && tx.msg.questions.iter().any(about)).map(|tx| tx.t - t0).collect();
+    rounds.dedup();
+    l.act("B4");
+    let wit = || json!({"scenario": desc, "follow_up_rounds_ms": rounds, "trace": scen::witness_window(&w.trace, t0, horizon, 60)});
+    if rounds.len() > 3 {
+        l.violate(Violation::new("B4", "B4/more-than-three-follow-up-rounds", format!("{} query rounds about one newly found instance and its host (at {:?} ms)", rounds.len(), rounds)).with(wit()));
+        return;
+    }
+    if let Some(p) = rounds.windows(2).find(|p| p[1] - p[0] + sl + 1 < 500) {
+        l.violate(Violation::new("B4", "B4/follow-ups-closer-than-half-a-second", format!("follow-up rounds {} ms apart (at {:?} ms)", p[1] - p[0], rounds)).with(wit()));
+    }
+}
+
 pub fn run(report: &Report, tier: &Tier) {
     report.set_rule(
         "the C13 'searches' workload (browse / browse again / stop / resolve_hostname with and without timeouts / dropped receivers, with \
          responders) over 20 s and over 2-3 virtual hours, plus lone searches left running for three virtual days; every PTR query for a \
-         browsed type and every A/AAAA query for a resolved host name is attributed; distinct by (mode, stepping, operation sequence)",
+         browsed type and every A/AAAA query for a resolved host name is attributed; plus an instance delivered in stages (PTR, then SRV/TXT or not, \
+         never an address; PTR repeated; type browsed again) with nobody answering: the follow-up rounds about it are counted and timed; \
+         distinct by (mode, stepping, operation sequence) / staging",
     );
-    report.assume("services of browsed types live on hosts nobody resolves by name; follow-up and verify queries ask other questions (instance ANY/SRV/TXT) and are not judged here");
-    for r in ["B1", "B2", "B3"] {
+    report.assume("services of browsed types live on hosts nobody resolves by name; in the search workloads follow-up and verify queries (instance ANY/SRV/TXT, host A/AAAA of browsed instances) are not attributed; the follow-up exemption is judged by B4 on staged deliveries");
+    for r in ["B1", "B2", "B3", "B4"] {
         report.floor(r, 50);
     }
     report.floor("B2-refresh", 5);
     let seed = report.seed;
     let n: u64 = if tier.thorough { 100_000 } else { 2_400 };
-    run_parallel(report, n, threads(), tier.budget_s, |i, l| {
+    // follow-up rounds for an instance delivered in stages
+    let nf: u64 = if tier.thorough { 40_000 } else { 1_000 };
+    run_parallel(report, nf, threads(), tier.budget_s * 0.15, |i, l| {
+        followup_case(util::mix(seed, 0xC19_F000 + i), l);
+    });
+    run_parallel(report, n, threads(), tier.budget_s * 0.85, |i, l| {
         let mode = match i % 12 {
             0 => 2,
             1..=3 => 1,
